@@ -314,6 +314,23 @@ def c09_sequences(tier):
         yield [('roCreate', 1), ('readytoair', 2), (k, 3)]
 
 
+def _c09_collection(docs, order):
+    """'shared-readers': one list of MosReaders serves two collections and the first one is merged before the second is
+    built and merged - readers restore a fresh object on every access, so the second must behave like the only one"""
+    if order != 'shared-readers':
+        return MosCollection.from_strings(docs, allow_incomplete=True)
+    from mosromgr.moscollection import MosReader
+    readers = [MosReader.from_string(d) for d in docs]
+    first = MosCollection(list(readers), allow_incomplete=True)
+    try:
+        with warnings.catch_warnings():
+            warnings.simplefilter('ignore')
+            first.merge(strict=False)
+    except X.MosRoMgrException:
+        pass
+    return MosCollection(list(readers), allow_incomplete=True)
+
+
 def search_C09(tier, rng):
     n = 0
     failures = []
@@ -321,7 +338,7 @@ def search_C09(tier, rng):
     for spec in c09_sequences(tier):
         docs = mk_msgs(spec)
         for strict in (True, False):
-            for order in ('given', 'reversed'):
+            for order in ('given', 'reversed', 'shared-readers'):
                 n += 1
                 distinct.add(json.dumps([spec, strict]))
                 d2 = list(reversed(docs)) if order == 'reversed' else docs
@@ -330,7 +347,7 @@ def search_C09(tier, rng):
                 with warnings.catch_warnings(record=True) as wl:
                     warnings.simplefilter('always')
                     try:
-                        mc = MosCollection.from_strings(d2, allow_incomplete=True)
+                        mc = _c09_collection(d2, order)
                         mc.merge(strict=strict)
                     except Exception as e:
                         err = type(e).__name__
@@ -349,10 +366,11 @@ def search_C09(tier, rng):
                     failures.append({'property': prop, 'fn': 'mosromgr.moscollection.MosCollection.merge', 'spec': spec, 'strict': strict,
                                      'order': order, 'what': '%s (%s, strict=%s, %s order)' % (what, spec, strict, order),
                                      'input_sha': _sha(json.dumps([spec, strict, order])),
-                                     'api': 'MosCollection.from_strings(docs, allow_incomplete=True).merge(strict=...)'})
+                                     'api': 'MosCollection.from_strings(docs, allow_incomplete=True).merge(strict=...)' if order != 'shared-readers' else
+                                            'readers = [MosReader.from_string(d) ...]; MosCollection(readers).merge(strict=False); MosCollection(readers).merge(strict=...)'})
     return {'evaluations': n, 'distinct': len(distinct), 'failures': failures,
             'rule': 'all sequences of <= %d messages over {append, failing replace, delete, move, item insert} with the roDelete nowhere / last / in the middle, '
-                    'strict and non-strict, supplied in given and reversed order; oracle = hand fold over freshly parsed messages' % (3 if tier == 'quick' else 4),
+                    'strict and non-strict, supplied in given and reversed order, and through a reader list already used by another, merged, collection; oracle = hand fold over freshly parsed messages' % (3 if tier == 'quick' else 4),
             'summary': {'short': '%d collection merges vs hand fold, %d failing' % (n, len(failures)), 'bounded': True}, 'assumptions': []}
 
 
@@ -365,7 +383,7 @@ def replay_C09(prop, f):
     with warnings.catch_warnings(record=True) as wl:
         warnings.simplefilter('always')
         try:
-            mc = MosCollection.from_strings(d2, allow_incomplete=True)
+            mc = _c09_collection(d2, f['order'])
             mc.merge(strict=f['strict'])
         except Exception as e:
             err = type(e).__name__
